@@ -15,6 +15,12 @@ Binding:
   Not decided: that the cylinder / sphere / Rege-Yang potentials are the published ones (DESIGN section 8).
 """
 import math
+import os
+
+# small dense linear algebra only: threaded BLAS is slower here, oversubscribes a shared box and makes the
+# optimiser path depend on the thread count; must be set before numpy is first imported
+for _v in ("OMP_NUM_THREADS", "OPENBLAS_NUM_THREADS", "MKL_NUM_THREADS"):
+    os.environ.setdefault(_v, "1")
 
 from ..common import Run, exc_class, MachineryError, quiet_pygaps
 from .. import tlc
@@ -81,24 +87,20 @@ class Capture:
         self.pm._solve_hk_cy = self.orig_cy
 
 
+def pick(i, seed, stride):
+    """deterministic pseudo-random 1-in-stride slice (multiplicative hash: no aliasing with the nesting of the scenario product)"""
+    return stride <= 1 or ((i * 2654435761 + seed * 1640531527) % 4294967296) * stride < 4294967296
+
+
 def select(scen, tier, seed):
     """thorough: the whole product.
-    quick: a seed-chosen slice, every model x geometry represented."""
+    quick: a seed-chosen slice, every model x geometry represented (slit HK round trips 1/2, Rege-Yang cylinder 1/15, others 1/4)."""
     out = []
     for s in scen:
-        i = s["id"]
-        blk = i // 12          # index of the (adsorbent, adsorbate, temperature) parameter set, 0..89
-        ry_cyl = s["model"].startswith("RY") and s["geo"] == "cylinder"
-        if tier == "thorough":
-            pass
-        else:
-            if ry_cyl:
-                if (blk + seed) % 15 != 0:
-                    continue
-            elif s["model"].startswith("HK") and s["geo"] == "slit":
-                if (blk + seed) % 2 != 0:
-                    continue
-            elif (blk + seed) % 4 != 0:
+        if tier != "thorough":
+            ry_cyl = s["model"].startswith("RY") and s["geo"] == "cylinder"
+            slit_hk = s["model"].startswith("HK") and s["geo"] == "slit"
+            if not pick(s["id"], seed, 15 if ry_cyl else (2 if slit_hk else 4)):
                 continue
         out.append(s)
     return out
@@ -205,7 +207,7 @@ def main(tier, seed):
                     run.add("scenarios_skipped_no_increasing_pressures")
                     continue
                 entry = "raw"
-                use_api = bool(numpy.all(pressure < 0.999)) and (s["id"] // 12 + s["id"] + seed) % 4 == 0
+                use_api = bool(numpy.all(pressure < 0.999)) and pick(s["id"] + 5, seed, 4)
                 if use_api:
                     entry = "api"
                     iso = pygaps.PointIsotherm(pressure=pressure, loading=n, material="hk-sample", adsorbate="N2", temperature=T,
@@ -228,18 +230,20 @@ def main(tier, seed):
             f, bound = cap.last["f"], cap.last["bound"]
             if L is None:
                 raise MachineryError("solver wrapper did not see a call")
-            obs = {"f0": [], "fm": [], "fp": []}
+            obs = {"f0": [], "fm": [], "fp": [], "gm": [], "gp": []}
             with numpy.errstate(all="ignore"):
                 for x in L:
                     obs["f0"].append(float(f(x)))
                     obs["fm"].append(float(f(max(x * (1 - EPS), bound * (1 + 1e-12)))))
                     obs["fp"].append(float(f(x * (1 + EPS))))
+                    obs["gm"].append(float(f(max(x * (1 - EPS / 10), bound * (1 + 1e-12)))))
+                    obs["gp"].append(float(f(x * (1 + EPS / 10))))
             if not all(math.isfinite(v) for k in obs for v in obs[k]):
                 run.violation({**sigbase, "clause": "equation", "observed": "library potential not finite at the reported width"}, {"scenario": s})
                 continue
             q = {"k": "judge", "geo": s["geo"], "cy": cy, "a": A["enc"], "h": H["enc"], "lnp": [enc(x) for x in lnp], "n": p["n"],
                  "ln1m": [enc(x) for x in ln1m], "L": [enc(x) for x in L], "f0": [enc(x) for x in obs["f0"]], "fm": [enc(x) for x in obs["fm"]],
-                 "fp": [enc(x) for x in obs["fp"]], "w": [enc(x) for x in w], "dist": [enc(x) for x in dist], "cum": [enc(x) for x in cum],
+                 "fp": [enc(x) for x in obs["fp"]], "gm": [enc(x) for x in obs["gm"]], "gp": [enc(x) for x in obs["gp"]], "w": [enc(x) for x in w], "dist": [enc(x) for x in dist], "cum": [enc(x) for x in cum],
                  "chosen": chosenW}
             judge_q.append(q)
             meta.append((s, sigbase, entry, H["cls"], L, [float(x) for x in pressure], [float(x) for x in w]))
